@@ -109,7 +109,7 @@ func TestVerifReplay(t *testing.T) {
 }
 '''
 
-def write_replay(prop, case, pkg, fn, tape, note=''):
+def write_replay(prop, case, pkg, fn, tape, note='', go_flags=''):
     """write a self-contained replay directory; returns its path"""
     d = os.path.join(VERIF, 'replays', prop, case)
     os.makedirs(d, exist_ok=True)
@@ -130,8 +130,8 @@ def write_replay(prop, case, pkg, fn, tape, note=''):
 # replay of a solver counterexample against the natively built package
 # %s
 export PATH=/opt/veriftools/go1.26.8/bin:$PATH GOFLAGS=-mod=mod GOPROXY=off GOSUMDB=off GOTOOLCHAIN=local
-cd %s && exec go test -tags verif_harness -vet=off -count=1 -v -overlay %s -run 'TestVerifReplay$' .
-''' % (note.replace('\n', ' '), os.path.join(REPO, sub), os.path.join(d, 'overlay.json')))
+cd %s && exec go test %s -tags verif_harness -vet=off -count=1 -v -overlay %s -run 'TestVerifReplay$' .
+''' % (note.replace('\n', ' '), os.path.join(REPO, sub), go_flags, os.path.join(d, 'overlay.json')))
     os.chmod(run, 0o755)
     return d
 
@@ -142,7 +142,7 @@ def run_replay(d, timeout=900):
     except subprocess.TimeoutExpired:
         return None, 'timeout'
     out = r.stdout
-    rep = ('VERIF-REPLAY: ASSERT-FAILED' in out) or ('VERIF-REPLAY: PANIC' in out)
+    rep = ('VERIF-REPLAY: ASSERT-FAILED' in out) or ('VERIF-REPLAY: PANIC' in out) or ('WARNING: DATA RACE' in out)
     return rep, out
 
 # ---------------------------------------------------------------------------
